@@ -311,6 +311,7 @@ func c03run(r *kernel.Run, seed uint64) {
 		if err != nil {
 			return "", false
 		}
+		s.wait()
 		return e.GetHash().String(), true
 	}
 	settleNet := func() {
